@@ -21,5 +21,5 @@ for _p in sorted(glob.glob(os.path.join(_here, "props", "C*.py"))):
     _spec.loader.exec_module(_m)
     PROPS[_name] = _m.PROP
     for _k in dir(_m):
-        if _k.startswith("fingerprint") or _k.startswith("post_"):
-            globals()[_k + "_" + _name if not _k.endswith(_name) else _k] = getattr(_m, _k)
+        if _k in ("fingerprint", "post", "pre"):
+            globals()[_k + "_" + _name] = getattr(_m, _k)
